@@ -134,8 +134,12 @@ def fill_scales_for_dyadic_pyramid(info, target_chunk_size=64,
 
     # Stop when the downscaled volume fits in two chunks (is target_chunk_size
     # adequate, or should we use the actual chunk sizes?)
+    # An axis that already fits in two chunks needs no downscaling. Otherwise
+    # it needs ceil(log2(size / target_chunk_size)) downscaling steps, which
+    # only begin after the delay of that axis.
     max_downscale_level = (
-        max(math.ceil(math.log2(a / target_chunk_size)) - b
+        max((math.ceil(math.log2(a / target_chunk_size)) + b
+             if a > 2 * target_chunk_size else 1)
             for a, b in zip(full_scale_info["size"],
                             axis_level_delays)))
     if max_scales:
